@@ -914,7 +914,7 @@ Proof.
   destruct (render_dec_spec k Hk) as [Hne [Hd _]].
   split; [rewrite mem_app, (all_digits_no 47 _ eq_refl Hd), (unit_no_slash u uv Hu); reflexivity|].
   destruct (number_head (render_dec k) (render_dec_number k Hk)) as [c [t [E Hc]]].
-  unfold rate_window. rewrite E. cbn [app]. rewrite Hc. cbn [negb andb]. rewrite <- (app_comm_cons t u c), <- E.
+  unfold rate_window. rewrite E. cbn [app]. rewrite Hc. cbn [negb andb]. change (c :: t ++ u) with ((c :: t) ++ u). rewrite <- E.
   split; [apply parse_duration_render; assumption|].
   destruct (unit_table_facts _ _ Hu) as [_ [_ [_ Hr]]]. nia.
 Qed.
